@@ -24,3 +24,11 @@ func (r *deltaResolver) Weight(ctx context.Context, obj *Delta, federationRequir
 	}
 	return 0, fmt.Errorf("requires without size: %v", federationRequires)
 }
+
+func (r *fedRoot) Zeta() ZetaResolver { return &zetaResolver{r.w} }
+
+type zetaResolver struct{ w *fedWorld }
+
+func (r *zetaResolver) Weight(ctx context.Context, obj *Zeta, federationRequires map[string]any) (int, error) {
+	return 7, nil
+}
